@@ -346,6 +346,22 @@ class MRdata:
     def norm(self):
         return norm_fields(self.fields)
 
+    def rkey(self, origin) -> bytes:
+        """Key under which the library's record-set treats two rdatas with *relativized*
+        names as the same: a name below the origin is compared as if the remaining labels
+        were rooted (so "a" relative and "a." absolute collide)."""
+        lo = lower_labels(origin)
+        out = []
+        for k, v in self.fields:
+            if k == "b":
+                out.append(v)
+            else:
+                lv = lower_labels(v)
+                if len(lv) >= len(lo) and lv[len(lv) - len(lo) :] == lo:
+                    lv = lv[: len(lv) - len(lo)] + (b"",)
+                out.append(name_wire(lv))
+        return b"".join(out)
+
 
 class MRRset:
     """owner: labels as handed to the library (relative or absolute); owner_abs: on the
@@ -988,6 +1004,11 @@ def _gen_section_sets(rng, pool, origin, n, types, classes, existing, max_rd=3):
                 k = rd.lkey()
                 if k in seen:
                     continue
+                if origin is not None and pool.relative_ok:
+                    k2 = b"rel:" + rd.rkey(origin)
+                    if k2 in seen:
+                        continue
+                    seen.add(k2)
                 seen.add(k)
                 rds.append(rd)
             key = (lower_labels(owner_abs), rdclass, rdtype, covers)
